@@ -1,10 +1,396 @@
-//! stub (to be replaced)
+//! Scenario P: the real `ThreadPool` (through the cfg-only wrapper `varlink::verif::VerifPool`)
+//! under the controlled scheduler. The main task plays the acceptor: it submits jobs exactly like
+//! `listen` does (`execute`), optionally waits for quiescence between submissions, and releases
+//! job gates. A job stands for a long-lived connection: it registers as "in service", blocks on
+//! its gate, and leaves.
+//!
+//! Oracles (C14):
+//!  * bound      — at every event, jobs in service <= max
+//!  * stranded   — at quiescence, a submitted job that has not started implies `max` jobs in service
+//!  * exactly-once — after releasing all gates and dropping the pool every job ran exactly once
+//!  * terminate  — dropping the pool returns (no deadlock)
+
+use std::collections::BTreeSet;
+use std::sync::{Arc, Mutex as StdMutex};
+
 use serde_derive::{Deserialize, Serialize};
-use crate::report::RunResult;
-#[derive(Clone, Debug, Serialize, Deserialize)]
-pub struct PCase {}
-pub fn eval_p(_c: &PCase) -> RunResult { RunResult::default() }
-pub fn shrinks(_c: &PCase) -> Vec<PCase> { vec![] }
-use crate::props::Plan;
-use crate::report::Tier;
-pub fn c14_plan(_t: Tier) -> Plan { unimplemented!() }
+use serde_json::json;
+use shuttle::sync::{Condvar, Mutex};
+
+use crate::oracle::{viol, Violation};
+use crate::props::{Plan, Space};
+use crate::report::{RunResult, Tier};
+use crate::rng::{Fnv, Rng};
+use crate::sched::{run_sim, wait_quiescent, SchedCfg, SimEnd};
+
+#[derive(Clone, Debug, Serialize, Deserialize, PartialEq)]
+pub enum POp {
+    Submit,
+    Quiesce,
+    /// open the gate of the n-th submitted job (ignored if not yet submitted)
+    Release(usize),
+}
+
+#[derive(Clone, Debug, Serialize, Deserialize, PartialEq)]
+pub struct PCase {
+    pub initial: usize,
+    pub max: usize,
+    pub ops: Vec<POp>,
+    pub sched: SchedCfg,
+}
+
+#[derive(Default)]
+struct PState {
+    active: usize,
+    max_active: usize,
+    started: Vec<u32>,
+    finished: Vec<u32>,
+    released: Vec<bool>,
+    bound_broken: Option<String>,
+}
+
+#[derive(Default)]
+struct POut {
+    violations: Vec<Violation>,
+    states: BTreeSet<(usize, usize, usize, usize)>,
+    quiesce_points: u64,
+    probes: Vec<(&'static str, u64)>,
+    done: bool,
+}
+
+fn run_p(case: &PCase) -> (SimEnd, crate::sched::SimStats, POut) {
+    let out: Arc<StdMutex<POut>> = Arc::new(StdMutex::new(POut::default()));
+    let out2 = out.clone();
+    let c = case.clone();
+    let (end, stats) = run_sim(&case.sched, move |ctl| {
+        let st = Arc::new((Mutex::new(PState::default()), Condvar::new()));
+        let mut pool = varlink::verif::VerifPool::new(c.initial, c.max);
+        let mut submitted = 0usize;
+        let max = c.max;
+        let mut grew_in_burst = 0u64;
+        let mut burst_len = 0u64;
+        let check_quiescent = |submitted: usize, pool: &varlink::verif::VerifPool, out: &Arc<StdMutex<POut>>, st: &Arc<(Mutex<PState>, Condvar)>| {
+            let g = st.0.lock().unwrap();
+            let started = g.started.iter().filter(|x| **x > 0).count();
+            let waiting = submitted - started;
+            let mut o = out.lock().unwrap();
+            o.quiesce_points += 1;
+            o.states.insert((pool.num_workers(), g.active, waiting, started));
+            if waiting > 0 && g.active < max {
+                o.violations.push(viol(
+                    "C14",
+                    "stranded",
+                    format!(
+                        "at quiescence {} submitted job(s) have not started although only {} of max {} are in service (workers={}, initial={})",
+                        waiting,
+                        g.active,
+                        max,
+                        pool.num_workers(),
+                        c.initial
+                    ),
+                ));
+            }
+            if pool.num_workers() > max {
+                o.violations.push(viol(
+                    "C14",
+                    "workers-over-max",
+                    format!("pool has {} workers, max is {} (initial {})", pool.num_workers(), max, c.initial),
+                ));
+            }
+        };
+        for op in &c.ops {
+            match op {
+                POp::Submit => {
+                    let j = submitted;
+                    submitted += 1;
+                    {
+                        let mut g = st.0.lock().unwrap();
+                        g.started.push(0);
+                        g.finished.push(0);
+                        g.released.push(false);
+                    }
+                    let st2 = st.clone();
+                    let before = pool.num_workers();
+                    pool.execute(move || {
+                        let (m, cv) = &*st2;
+                        let mut g = m.lock().unwrap();
+                        g.started[j] += 1;
+                        g.active += 1;
+                        if g.active > g.max_active {
+                            g.max_active = g.active;
+                        }
+                        if g.active > max && g.bound_broken.is_none() {
+                            g.bound_broken = Some(format!(
+                                "{} jobs in service at once, max is {} (job #{} just started)",
+                                g.active, max, j
+                            ));
+                        }
+                        while !g.released[j] {
+                            g = cv.wait(g).unwrap();
+                        }
+                        g.active -= 1;
+                        g.finished[j] += 1;
+                    });
+                    burst_len += 1;
+                    if pool.num_workers() > before {
+                        grew_in_burst += 1;
+                    }
+                }
+                POp::Quiesce => {
+                    wait_quiescent(&ctl);
+                    check_quiescent(submitted, &pool, &out2, &st);
+                    burst_len = 0;
+                }
+                POp::Release(j) => {
+                    let mut g = st.0.lock().unwrap();
+                    if *j < g.released.len() {
+                        g.released[*j] = true;
+                        drop(g);
+                        st.1.notify_all();
+                    }
+                }
+            }
+        }
+        wait_quiescent(&ctl);
+        check_quiescent(submitted, &pool, &out2, &st);
+        {
+            let g = st.0.lock().unwrap();
+            let mut o = out2.lock().unwrap();
+            o.probes.push(("burst_of_3_or_more_submits", (burst_len >= 3) as u64));
+            o.probes.push(("pool_grew", (grew_in_burst > 0) as u64));
+            o.probes.push(("reached_max_in_service", (g.max_active == max) as u64));
+        }
+        // release everything and shut the pool down like `listen` does on return
+        {
+            let mut g = st.0.lock().unwrap();
+            for r in g.released.iter_mut() {
+                *r = true;
+            }
+        }
+        st.1.notify_all();
+        drop(pool);
+        let g = st.0.lock().unwrap();
+        let mut o = out2.lock().unwrap();
+        if let Some(b) = &g.bound_broken {
+            o.violations.push(viol("C14", "bound", b.clone()));
+        }
+        for j in 0..submitted {
+            if g.started[j] != 1 || g.finished[j] != 1 {
+                o.violations.push(viol(
+                    "C14",
+                    "exactly-once",
+                    format!(
+                        "job #{} started {} times and finished {} times after all gates were opened and the pool was dropped",
+                        j, g.started[j], g.finished[j]
+                    ),
+                ));
+            }
+        }
+        o.done = true;
+    });
+    let o = std::mem::take(&mut *out.lock().unwrap_or_else(|e| e.into_inner()));
+    (end, stats, o)
+}
+
+pub fn eval_p(case: &PCase) -> RunResult {
+    let (end, stats, mut o) = run_p(case);
+    let mut inconclusive = false;
+    match &end {
+        SimEnd::Completed => {}
+        SimEnd::Deadlock(t) => o.violations.push(viol(
+            "C14",
+            "deadlock",
+            format!("pool deadlocked: {}", t.chars().take(200).collect::<String>()),
+        )),
+        SimEnd::Panic(t) => o.violations.push(viol(
+            "C14",
+            "panic",
+            format!("pool code panicked: {}", t.chars().take(200).collect::<String>()),
+        )),
+        SimEnd::StepBound => inconclusive = true,
+    }
+    if matches!(end, SimEnd::Completed) && !o.done {
+        inconclusive = true;
+    }
+    // dedupe identical violations (several quiescence points may report the same stranding)
+    o.violations.dedup_by(|a, b| a.clause == b.clause);
+    let mut sig = Fnv::new();
+    sig.u64(case.initial as u64);
+    sig.u64(case.max as u64);
+    sig.str(&format!("{:?}", case.ops));
+    sig.u64(stats.switch_hash);
+    let mut lh = Fnv::new();
+    lh.str(&format!("{:?}", o.states));
+    lh.u64(stats.switch_hash);
+    lh.u64(stats.steps);
+    lh.str(&format!("{:?}", o.violations));
+    let mut probes = o.probes.clone();
+    probes.push(("fairness_forced_choice", (stats.fairness_forced > 0) as u64));
+    for s in &o.states {
+        if s.2 > 0 {
+            probes.push(("job_waiting_with_all_slots_busy", 1));
+            break;
+        }
+    }
+    RunResult {
+        violations: o.violations,
+        sig: sig.0,
+        nontrivial: stats.switches >= 4,
+        faults: vec![],
+        probes,
+        sim_ms: 0,
+        steps: stats.steps,
+        log_hash: lh.0,
+        inconclusive,
+        sample: Some(json!({
+            "scenario": "P",
+            "initial": case.initial,
+            "max": case.max,
+            "ops": format!("{:?}", case.ops),
+            "sched_mode": format!("{:?}", case.sched.mode),
+            "scheduler_steps": stats.steps,
+            "context_switches": stats.switches,
+            "tasks": stats.tasks,
+            "states_at_quiescence(workers,in_service,waiting,started)": o.states.iter().collect::<Vec<_>>(),
+        })),
+    }
+}
+
+pub fn shrinks(c: &PCase) -> Vec<PCase> {
+    let mut v = Vec::new();
+    for i in 0..c.ops.len() {
+        let mut n = c.clone();
+        n.ops.remove(i);
+        v.push(n);
+    }
+    if c.initial > 1 {
+        let mut n = c.clone();
+        n.initial -= 1;
+        v.push(n);
+    }
+    if !matches!(c.sched.mode, crate::sched::Mode::Uniform) && c.sched.replay.is_none() {
+        let mut n = c.clone();
+        n.sched.mode = crate::sched::Mode::Uniform;
+        v.push(n);
+    }
+    v
+}
+
+/// record the choice list of a failing case so the replay file does not depend on the PRNG, then
+/// shorten it while the same clause keeps failing
+pub fn pin_schedule(c: &PCase, clause: &str) -> PCase {
+    let (_, stats, _) = run_p(c);
+    let mut pinned = c.clone();
+    pinned.sched.replay = Some(stats.choices.clone());
+    let fails = |cand: &PCase| eval_p(cand).violations.iter().any(|v| v.clause == clause);
+    if !fails(&pinned) {
+        return c.clone();
+    }
+    let short = crate::sched::shrink_choices(
+        &stats.choices,
+        |ch| {
+            let mut n = pinned.clone();
+            n.sched.replay = Some(ch.to_vec());
+            fails(&n)
+        },
+        60,
+    );
+    pinned.sched.replay = Some(short);
+    pinned
+}
+
+pub fn c14_plan(tier: Tier) -> Plan {
+    let mut spaces = Vec::new();
+    // systematic: every (initial <= max) configuration x k submissions x every quiesce pattern x seeds
+    {
+        let mut cfgs: Vec<(usize, usize, usize, u32)> = Vec::new();
+        for initial in 1..=3usize {
+            for max in 1..=4usize {
+                for k in 1..=6usize {
+                    for mask in 0..(1u32 << (k - 1)) {
+                        cfgs.push((initial, max, k, mask));
+                    }
+                }
+            }
+        }
+        let seeds: u64 = if tier == Tier::Quick { 6 } else { 60 };
+        let size = cfgs.len() as u64 * seeds;
+        spaces.push(Space {
+            name: "P.burst.systematic",
+            size,
+            exhaustive: false,
+            gen: Box::new(move |idx, seed| {
+                let (initial, max, k, mask) = cfgs[(idx / seeds) as usize];
+                let mut rng = Rng::new(seed);
+                let mut ops = Vec::new();
+                for i in 0..k {
+                    ops.push(POp::Submit);
+                    if i + 1 < k && mask & (1 << i) != 0 {
+                        ops.push(POp::Quiesce);
+                    }
+                }
+                crate::cases::Case::P(PCase {
+                    initial,
+                    max,
+                    ops,
+                    sched: SchedCfg::random(&mut rng, 0),
+                })
+            }),
+        });
+    }
+    // random histories with connections ending while others arrive
+    {
+        let n = if tier == Tier::Quick { 12_000 } else { 400_000 };
+        spaces.push(Space {
+            name: "P.history.random",
+            size: n,
+            exhaustive: false,
+            gen: Box::new(move |_idx, seed| {
+                let mut rng = Rng::new(seed);
+                let initial = rng.range(1, 3) as usize;
+                let max = rng.range(1, 4) as usize;
+                let k = rng.range(1, 7) as usize;
+                let mut ops = Vec::new();
+                let mut sub = 0usize;
+                while sub < k {
+                    match rng.below(6) {
+                        0 | 1 | 2 => {
+                            ops.push(POp::Submit);
+                            sub += 1;
+                        }
+                        3 => ops.push(POp::Quiesce),
+                        _ => {
+                            if sub > 0 {
+                                ops.push(POp::Release(rng.usize(sub)));
+                            }
+                        }
+                    }
+                }
+                crate::cases::Case::P(PCase {
+                    initial,
+                    max,
+                    ops,
+                    sched: SchedCfg::random(&mut rng, 0),
+                })
+            }),
+        });
+    }
+    Plan {
+        spaces,
+        rule: "P: the real ThreadPool driven by an acceptor task under the controlled scheduler. Systematic: initial 1..3 x max 1..4 x 1..6 submissions x every pattern of 'wait for quiescence between two submissions' x 6 (quick) / 60 (thorough) seeded schedules (modes: uniform, sticky, PCT-like priorities, acceptor burst, starved worker; bounded-bypass fairness); random: histories that also open gates (connections ending) between submissions. A run is distinct by (configuration, ops, hash of the context-switch sequence) and non-trivial when the schedule has >= 4 context switches.".into(),
+        level: "exploration",
+        real: vec![
+            "varlink::server::ThreadPool::{new, execute, drop, num_busy}",
+            "varlink::server::Worker (worker loop, busy accounting)",
+            "shuttle's model of std::thread / mpsc / Mutex / RwLock under the cfg hook",
+        ],
+        stub: vec![
+            "jobs (stand-ins for connection handlers: register, block on a gate, leave)",
+            "the acceptor (submits like listen() does)",
+            "thread scheduling (PlanScheduler decides every interleaving)",
+        ],
+        assumptions: vec![
+            "shuttle's mpsc/Mutex/RwLock/thread model is faithful to std's blocking semantics".into(),
+        ],
+    }
+}
